@@ -11,7 +11,7 @@ from concurrent.futures import ThreadPoolExecutor
 PROP = "C11"
 META = {
  "engine": "P-patterns (stochastic sub-engine Pat/Chance.v)",
- "text": "Coq theorems (Props/C11.v, closed under the global context) over an executable model of PWhite, PBrown, PCoin, PFlipFlop, PSkip, PRandomWalk, PChoice, PSample, PShuffle, PShuffleInput, PSwitchOne, PMarkov and util.normalize/windex, in which the random generator is an oracle (Section variables r_unit, r_below, r_seed): reset and re-seed rewind state and stream to those of a fresh instance, a pattern's outputs in a world of several patterns and the global generator under ANY schedule equal its outputs alone (isolation; hence equal instances agree), and for ALL generator behaviours and all steps the outputs stay in range / support (noise in [min,max], finite length exact, brownian steps bounded and clamped, walk moves between min and max, choices from the values, samples without replacement, shuffles permutations, skips only rests, Markov only learned transitions); the weighted index i is chosen exactly when cum(i) <= u*W < cum(i+1), an interval of length w_i/W. The model is tied to the repository on every run: each script (next/reset/seed interleavings) is executed on the real class with a recording random.Random substituted for pattern.rng, the recorded draws are replayed through the model inside Coq (vm_compute) and outputs and generator requests are compared exactly; an independent oracle checks reproducibility, isolation (world schedules, random.getstate()), supports and frequencies on the implementation directly. Copies used side by side (Pat/ChanceCopy.v): for every machine - a stochastic pattern nested in deterministic wrappers included - and every interleaving of next/reset/seed on an original and its copies, copy() and global generator calls, a member no copy overwrites produces what it produces alone (C11_copy_isolation), a seeded original equals any other instance with the same arguments and seed whatever happens to its copies, and a copy continues from its source's state; families are run on the implementation with a recording generator that deepcopy duplicates, judged against fresh solo instances and replayed through the model. Seed values of every kind random.seed accepts (Pat/ChanceSeed.v: int, negative, huge, bool, float, str, bytes, bytearray reduced by seed_key as CPython does, SHA-512 as data): reproducibility theorems for every kind, same key => same sequence, independence of the surrounding world (the image of the interpreter process); the same scripts are run in four interpreters with different PYTHONHASHSEED and must agree, the model's key is compared with Python's and with the implementation (a value and its int key give the same outputs), and draws recorded in one interpreter are replayed through the model against the outputs of another.",
+ "text": "Coq theorems (Props/C11.v, closed under the global context) over an executable model of PWhite, PBrown, PCoin, PFlipFlop, PSkip, PRandomWalk, PChoice, PSample, PShuffle, PShuffleInput, PSwitchOne, PMarkov and util.normalize/windex, in which the random generator is an oracle (Section variables r_unit, r_below, r_seed): reset and re-seed rewind state and stream to those of a fresh instance, a pattern's outputs in a world of several patterns and the global generator under ANY schedule equal its outputs alone (isolation; hence equal instances agree), and for ALL generator behaviours and all steps the outputs stay in range / support (noise in [min,max], finite length exact, brownian steps bounded and clamped, walk moves between min and max, choices from the values, samples without replacement, shuffles permutations, skips only rests, Markov only learned transitions); the weighted index i is chosen exactly when cum(i) <= u*W < cum(i+1), an interval of length w_i/W. The model is tied to the repository on every run: each script (next/reset/seed interleavings) is executed on the real class with a recording random.Random substituted for pattern.rng, the recorded draws are replayed through the model inside Coq (vm_compute) and outputs and generator requests are compared exactly; an independent oracle checks reproducibility, isolation (world schedules, random.getstate()), supports and frequencies on the implementation directly. Copies used side by side (Pat/ChanceCopy.v): for every machine - a stochastic pattern nested in deterministic wrappers included - and every interleaving of next/reset/seed on an original and its copies, copy() and global generator calls, a member no copy overwrites produces what it produces alone (C11_copy_isolation), a seeded original equals any other instance with the same arguments and seed whatever happens to its copies, and a copy continues from its source's state; families are run on the implementation with a recording generator that deepcopy duplicates, judged against fresh solo instances and replayed through the model. Seeded stochastic patterns nested inside seeded stochastic patterns with other seeds (Pat/SeededNest.v, Pat/SeededNestIso.v): after any history of next / reset / seed of the parent / seed of a child, every child is the child alone under its own operations and has handed the parent the outputs of that stand-alone child, no seed of the parent or of another child ever reaches it, seeding a child leaves the parent alone, and PSkip passes only values it pulled; nests seeded inner-first, outer-first and re-seeded later are run on the implementation and must equal the composition of stand-alone instances with the same arguments and seeds, with the skip / shuffle-input supports checked against the stand-alone source and the outer machine replayed over the stand-alone inner's sequence inside Coq. Seed values of every kind random.seed accepts (Pat/ChanceSeed.v: int, negative, huge, bool, float, str, bytes, bytearray reduced by seed_key as CPython does, SHA-512 as data): reproducibility theorems for every kind, same key => same sequence, independence of the surrounding world (the image of the interpreter process); the same scripts are run in four interpreters with different PYTHONHASHSEED and must agree, the model's key is compared with Python's and with the implementation (a value and its int key give the same outputs), and draws recorded in one interpreter are replayed through the model against the outputs of another.",
  "note": "Trusted / modelled-not-verified: the Mersenne Twister and random.Random's derived methods (uniform, randint, choice, shuffle reduce to random() and _randbelow(n) as in CPython 3.12); its uniformity (frequencies are a 6-sigma statistical validation, the theorem is the interval-length fact). Floats are exact rationals in the model; float outputs (PWhite/PBrown float mode) are compared by a proven-sound enclosure |impl - model| <= eps, weighted choices whose draw lies within 2^-30 of a boundary are discarded. PArpeggiator(RANDOM), PRandomExponential, PRandomImpulseSequence, regular PCoin/PSkip are covered by the oracle only (no Coq model). seed(None) draws the new seed from the global generator by design and is out of scope. Object identity of a copy and the interpreter's string-hash salt have no image in the model (a copy is a key of the family world; no salt occurs in seed_key): covered by the oracle and the cross-process correspondence; SHA-512 enters as data computed by hashlib.",
 }
 
@@ -1221,6 +1221,194 @@ def run_families(run, per_cls):
 
 
 # ---------------------------------------------------------------------------------------------------
+# seeded stochastic patterns nested inside other seeded stochastic patterns (model Pat/SeededNest.v, Pat/SeededNestIso.v)
+# ---------------------------------------------------------------------------------------------------
+NEST_INNER = ["PWhite", "PBrown", "PChoice", "PRandomWalk", "PMarkov", "PShuffle", "PFlipFlop"]
+
+
+def gen_nested(rng):
+    """Outer(Inner(args).seed(a), ...).seed(b) [and a third level], the seeds all different, seeded inner-first (the in-line
+    form), outer-first or in a random order, then driven from the top with re-seeds of any level and resets in between"""
+    top = rng.choice(["PSkip", "PSkip", "PShuffleInput", "PShuffleInput", "PSwitchOne", "PCoin"])
+
+    def outer(cls):
+        return {"cls": cls, "args": {"play": float(rng.choice([0.25, 0.5, 0.75, 0.3, 0.9]))} if cls == "PSkip" else
+                {"every": rng.randint(2, 5)} if cls == "PShuffleInput" else {"length": rng.randint(2, 5)} if cls == "PSwitchOne" else {}}
+    if top == "PCoin":
+        inner = rng.choice([{"cls": "PWhite", "args": {"min": 0.1, "max": 0.9, "length": 0}},
+                            {"cls": "PChoice", "args": {"values": [0.25, 0.5, 0.75], "weights": None}}])
+        levels = [inner, outer("PCoin")]
+    else:
+        ic = rng.choice(NEST_INNER)
+        a = gen_spec(rng, ic)
+        if ic == "PWhite":
+            a = {"min": rng.randint(-50, 50), "max": 0, "length": rng.choice([0, 0, 0, rng.randint(3, 9)])}
+            a["max"] = a["min"] + rng.randint(5, 1000)
+        if ic == "PShuffle":
+            a["repeats"] = None
+        levels = [{"cls": ic, "args": a}]
+        if rng.random() < 0.2:
+            levels.append(outer(rng.choice(["PSkip", "PShuffleInput"])))
+        levels.append(outer(top))
+    n = len(levels)
+    seeds = rng.sample(range(1, 2 ** 31), n)
+    order = list(range(n)) if rng.random() < 0.5 else list(range(n))[::-1] if rng.random() < 0.6 else rng.sample(range(n), n)
+    ops = ["next"] * rng.randint(4, 12)
+    for _ in range(rng.randint(0, 3)):
+        k = rng.random()
+        if k < 0.35:
+            ops.append("reset")
+        elif k < 0.8:
+            ops.append(["seed", rng.randrange(n), rng.choice(seeds + [rng.randrange(2 ** 31)])])
+            if rng.random() < 0.5:
+                ops.append("reset")
+        ops += ["next"] * rng.randint(2, 10)
+    return {"kind": "nested", "levels": levels, "seeds": seeds, "order": order, "ops": ops,
+            "record": n == 2 and top in ("PSkip", "PShuffleInput", "PSwitchOne")}
+
+
+def outer_src(spec, src):
+    c, a = spec["cls"], spec["args"]
+    return {"PSkip": "iso.PSkip(%s, %r)" % (src, a.get("play")), "PShuffleInput": "iso.PShuffleInput(%s, %r)" % (src, a.get("every")),
+            "PSwitchOne": "iso.PSwitchOne(%s, %r)" % (src, a.get("length")), "PCoin": "iso.PCoin(%s)" % src}[c]
+
+
+def nest_ctor(levels, seeds):
+    src = ctor(levels[0]) + ".seed(%d)" % seeds[0]
+    for k in range(1, len(levels)):
+        src = outer_src(levels[k], src) + ".seed(%d)" % seeds[k]
+    return src
+
+
+def nested_snippet(c):
+    n = len(c["levels"])
+    lines = ["import isobar as iso", "p0 = %s" % ctor(c["levels"][0])]
+    for k in range(1, n):
+        lines.append("p%d = %s" % (k, outer_src(c["levels"][k], "p%d" % (k - 1))))
+    for lvl in c["order"]:
+        lines.append("p%d.seed(%d)" % (lvl, c["seeds"][lvl]))
+    for o in c["ops"]:
+        lines.append("print(next(p%d, 'StopIteration'))" % (n - 1) if o == "next" else "p%d.reset()" % (n - 1) if o == "reset"
+                     else "p%d.seed(%d)" % (o[1], o[2]))
+    lines.append("# reference: every level a stand-alone instance with its own seed; level k reads level k-1 through iso.PFunc(lambda: next(ref[k-1]))")
+    return "\n".join(lines)
+
+
+def run_nested(run, n):
+    rng = run.rng
+    cases = [gen_nested(rng) for _ in range(n)]
+    results = shard(run, cases)
+    terms, meta = [], []
+    for c, r in zip(cases, results):
+        levels = c["levels"]
+        top = levels[-1]["cls"]
+        run.count(len(c["ops"]))
+        run.dist("nested.%s-over-%s" % (top, levels[-2]["cls"]))
+        run.dist("nested.depth-%d" % len(levels))
+        run.dist("nested.order.%s" % ("inner-first" if c["order"] == sorted(c["order"]) else "outer-first" if c["order"] == sorted(c["order"], reverse=True) else "mixed"))
+        if any(isinstance(o, list) for o in c["ops"]):
+            run.dist("nested.re-seeded-later")
+        if "driver_exception" in r:
+            run.discard("nested: a constructor raises")
+            continue
+        site = "%s(%s)" % (top, levels[-2]["cls"])
+        hit = False
+
+        def rep(kind, detail):
+            run.violation({"kind": kind, "site": site}, {
+                "case": {"levels": levels, "seeds": c["seeds"], "seeded_in_order": c["order"], "ops": c["ops"]},
+                "observed": detail,
+                "oracle": "every pattern of a nest must produce the sequence of ITS OWN seed: the nest must behave as the composition of stand-alone "
+                          "instances, each with its own arguments and seed, the outer ones reading the inner ones as opaque sources",
+                "python": nested_snippet(c)})
+        ev, ref = r["events"], r["ref_events"]
+        run.cov["oracle_evaluations"] += len(ev)
+        run.nontrivial(json.dumps([levels, c["seeds"], c["order"], c["ops"]], sort_keys=True))
+        if r["global_touched"]:
+            hit = True
+            rep("global-generator-touched", "random.getstate() changed while the nest was driven")
+        if ev != ref:
+            hit = True
+            j = next((j for j in range(min(len(ev), len(ref))) if ev[j] != ref[j]), None)
+            rep("nested-not-its-own-seed", "output %r of %s is %r; the composition of stand-alone instances with the same arguments and seeds (seeded in the "
+                "same order, driven by the same operations) gives %r (nest %r, stand-alone %r)" % (
+                    j, nest_ctor(levels, c["seeds"]), ev[j] if j is not None else None, ref[j] if j is not None else None, ev[:12], ref[:12]))
+        # supports through the nesting, against the values a STAND-ALONE level-0 instance with its seed produces
+        raised = any(isinstance(e, dict) and "x" in e for e in ev) or any("raise" in seg for seg in r["pulls"])
+        if raised:
+            run.dist("nested.an-exception-in-the-nest")   # the source raised (invalid arguments): positions no longer align
+        if len(levels) == 2 and top in ("PSkip", "PShuffleInput") and not hit and not raised:
+            k = 0
+            segs, cur = [], []
+            for o in c["ops"]:
+                if o == "next":
+                    cur.append(ev[k]); k += 1
+                elif o == "reset":
+                    segs.append(cur); cur = []
+            segs.append(cur)
+            for seg, src in zip(segs, r["pulls"]):
+                vals = [e for e in seg if isinstance(e, dict) and "v" in e]
+                if top == "PSkip":
+                    for j, e in enumerate(seg):
+                        if isinstance(e, dict) and "v" in e and e["v"] is not None and (j >= len(src) or src[j] == "stop" or e["v"] != src[j]):
+                            hit = True
+                            rep("skip-passes-foreign-value", "PSkip output %d of a segment is %r; the seeded source alone produces %r there" % (
+                                j, dec(e["v"]), dec(src[j]) if j < len(src) and src[j] != "stop" else None))
+                            break
+                else:
+                    ke = levels[1]["args"]["every"]
+                    sv = [x for x in src if x != "stop"]
+                    for b in range(0, len(vals), ke):
+                        blk, sblk = vals[b:b + ke], sv[b:b + ke]
+                        if len(blk) == len(sblk) == ke and sorted(json.dumps(x["v"]) for x in blk) != sorted(json.dumps(x) for x in sblk):
+                            hit = True
+                            rep("shuffleinput-not-a-permutation", "block %d is %r, the seeded source's block is %r" % (
+                                b // ke, [dec(x["v"]) for x in blk], [dec(x) for x in sblk]))
+                            break
+                if hit:
+                    break
+        # model: the outer machine of Pat/Chance.v over the stand-alone inner's sequence AS DATA, replaying the outer's recorded draws
+        if not c.get("record") or "epochs" not in r:
+            continue
+        if any(isinstance(o, list) and o[1] == 0 for o in c["ops"]):
+            run.dist("nested.model-skipped.inner-re-seeded-mid-script")
+            continue
+        if raised:
+            run.dist("nested.model-skipped.an-exception-in-the-nest")   # the source raised (invalid arguments): judged by the oracle only
+            continue
+        src = max(r["pulls"], key=len)
+        if any(s2 != src[:len(s2)] for s2 in r["pulls"]):
+            run.dist("nested.model-skipped.segments-differ")
+            continue
+        vals = [x for x in src if x != "stop"]
+        if not all(x is None or "i" in x for x in vals):
+            continue
+        if top != "PSkip" and any(x is None for x in vals):
+            continue
+        inp = [None if x is None else x["i"] for x in vals]
+        spec = {"cls": top, "args": dict(levels[1]["args"], input=inp)}
+        case = {"spec": spec, "ops": [o if isinstance(o, str) else ["seed", o[2]] for o in c["ops"]]}
+        t = script_term(case, {"events": ev, "epochs": r["epochs"]})
+        if t is None:
+            continue
+        terms.append(t)
+        meta.append((c, r, hit))
+    failing = run.coq_failing(HEADER, terms, chunk=100)
+    run.cov["traces_validated_against_impl"] += len(terms) - len(failing)
+    run.cov["nests_validated_against_model"] = len(terms) - len(failing)
+    for i in failing:
+        c, r, hit = meta[i]
+        if hit:
+            continue
+        run.violation({"kind": "correspondence", "site": "nested:" + c["levels"][-1]["cls"]}, {
+            "broken": "correspondence: the outer class's machine (Pat/Chance.v) over the sequence of a STAND-ALONE inner instance with its own seed, "
+                      "replaying the outer's recorded draws, does not give the nest's outputs (C11_nested_* no longer describe this code)",
+            "case": {"levels": c["levels"], "seeds": c["seeds"], "seeded_in_order": c["order"], "ops": c["ops"]},
+            "observed": {"events": r["events"][:30], "standalone_source": r["pulls"]}, "python": nested_snippet(c), "coq_term": terms[i][:3000]},
+            found_input=True)
+
+
+# ---------------------------------------------------------------------------------------------------
 # seed values of every kind, and reproducibility ACROSS interpreter processes (model Pat/ChanceSeed.v)
 # ---------------------------------------------------------------------------------------------------
 SEED_HEADER = HEADER.replace("Pat.Chance.", "Pat.Chance Pat.ChanceSeed.")
@@ -1484,6 +1672,7 @@ def check(run):
     run_freq(run, 10000 if quick else 100000)
     run_families(run, 14 if quick else 200)
     run_xproc(run, 6 if quick else 80)
+    run_nested(run, 240 if quick else 4000)
     run.cov["exhaustive"] = False
     run.cov["rule"] = ("one case = one script (class, arguments, seed, sequence of next/reset/seed operations) run on the real class with a "
                        "recording generator and replayed through the Coq model; or one world schedule (2-5 patterns + global generator "
